@@ -71,5 +71,19 @@ CHECKS["C16"] = {
             "sqrt law sqrt(x)^2=x. The Learner1D-inherited loss machinery of AverageLearner1D is not modelled.",
     "technique": T,
 }
+
+_L1D_NOTE = ("Trusted: Lean kernel, standard axioms, hand model L1D.lean tied BIT-EXACTLY (data, pending, both loss tables in container "
+             "order, both losses, ask results) to Learner1D on generated histories with the loss function as recorded oracle; "
+             "sortedcontainers semantics; IEEE rounding outside the theorems (ordered fields).")
+CHECKS["C01"] = {
+    "level": "proof",
+    "text": "Kernel-checked over every ordered field, every loss function (0/1 neighbours), every op list (tell, tell_pending, "
+            "tell_many both paths, remove_unfinished, ask): both loss containers stay in ItemSortedDict order, hence loss(real) is "
+            "inf exactly when a bound is unknown or no interval exists and otherwise the entry no other entry exceeds (rounded, "
+            "infinity-aware); further theorems (one entry per neighbouring pair, staleness of the output scale bounded by the factor, "
+            "proportional expected loss of pieces) as listed in Props/C01.lean. Tie: bit-exact lock-step. Search: every stored loss "
+            "recomputed from learner.data at every admissible output range.",
+    "design_ref": "DESIGN.md section 6 C01", "note": _L1D_NOTE, "technique": T,
+}
 _PENDING = "machinery for this property is not built yet in this commit (work in progress; see DESIGN.md section 9)"
 NOT_APPLICABLE = {f"C{i:02d}": _PENDING for i in range(1, 21) if f"C{i:02d}" not in CHECKS}
